@@ -68,6 +68,9 @@ theorem c02Visit_noWaits (cfg : LeafCfg) (scr : LeafScript) (l : List Ev) :
 theorem c17Visit_noWaits (cfg : LeafCfg) (scr : LeafScript) (l : List Ev) :
     c17Visit cfg scr (noWaits l) = c17Visit cfg scr l := by
   unfold c17Visit; rw [split_noWaits]
+theorem c02Bounds_noWaits (cfg : LeafCfg) (scr : LeafScript) (l : List Ev) :
+    c02Bounds cfg scr (noWaits l) = c02Bounds cfg scr l := by
+  unfold c02Bounds; rw [split_noWaits]
 
 section
 variable {kind : CtxKind} {n v : Nat} {cfg : LeafCfg} {scr : LeafScript}
@@ -316,6 +319,68 @@ theorem c02Visit_of_leafRun {sid : Nat} {evs : List Ev} {out : Outcome} (h : Lea
             rw [List.head?_range, if_neg (by omega)]
           cases hpost
           simp [hcu, hj', errOf, he', hh, evKey]
+
+/-! ### C02, the clauses that hold under every pattern of cancellation -/
+
+/-- `Spec.c02Bounds` evaluated on the parts of a segment: at most `N` exec events, every attempt but the last
+    failed, and the fallback events are none or one call justified by `N` failed attempts -/
+theorem c02Bounds_of_parts {seg P E F Q R : List Ev}
+    (hs : split seg = { preps := P, execs := E, fbs := F, posts := Q, rest := R })
+    (hle : E.length ≤ cfg.effBudget)
+    (hfail : ∀ j, j + 1 < E.length → ∃ e, (scr.exec j).res = .error e)
+    (hF : F = [] ∨ ∃ a pv e, F = [Ev.fb n v a (.user e)] ∧ a = pv ∧ cfg.fb = .custom ∧ 1 ≤ cfg.effBudget ∧
+      E.length = cfg.effBudget ∧ AllFail scr.exec cfg.effBudget ∧ prepValue cfg scr = some pv ∧
+      (scr.exec (cfg.effBudget - 1)).res = .error e) :
+    c02Bounds cfg scr seg = true := by
+  have hall : ∀ M, (∀ j, j < M → ∃ e, (scr.exec j).res = .error e) →
+      (List.range M).all (fun k => (okVal (scr.exec k)).isNone) = true := by
+    intro M hM
+    rw [List.all_eq_true]
+    intro k hk
+    obtain ⟨e, he⟩ := hM k (by simpa using hk)
+    simp [okVal, he]
+  have h2 := hall (E.length - 1) (fun j hj => hfail j (by omega))
+  unfold c02Bounds
+  simp only [hs]
+  rcases hF with rfl | ⟨a, pv, e, rfl, rfl, hc, h1, hm, haf, hpv, he⟩
+  · simp [hle, h2]
+  · have h3 := hall cfg.effBudget haf
+    rw [hm] at h2
+    simp [hm, h2, h3, hc, h1, hpv, errOf, he]
+
+/-- **C02 bridge, cancellation-proof clauses**: `Spec.c02Bounds` holds on EVERY run of a leaf node on a live
+    context — whatever cancels the context when (no hypothesis on the script or the configuration) -/
+theorem c02Bounds_of_leafRun {sid : Nat} {evs : List Ev} {out : Outcome} (h : LeafRun kind n v sid cfg scr evs out) :
+    c02Bounds cfg scr evs = true := by
+  cases h with
+  | @prepFailed e hp hr =>
+    exact c02Bounds_of_parts (n := n) (v := v) (split_prepOnly sid) (by simp) (by simp) (Or.inl rfl)
+  | @prepCancelled x hp hr hc =>
+    exact c02Bounds_of_parts (n := n) (v := v) (split_prepOnly sid) (by simp) (by simp) (Or.inl rfl)
+  | @ran pv loop fbs posts m res out hpv hc hl hk hle hfb he hpost =>
+    refine c02Bounds_of_parts (n := n) (v := v) (split_ran hl he hpost) (by simpa using hle) (by simpa using hfb) ?_
+    have hlen : ((List.range m).map (leafExec n v (execArg cfg.execS pv))).length = m := by simp
+    rw [hlen]
+    have fbCase : ∀ j e, j + 1 = cfg.effBudget → m = j + 1 → (scr.exec j).res = .error e → cfg.fb = .custom →
+        ∃ a pv' e', [leafFb n v pv e] = [Ev.fb n v a (.user e')] ∧ a = pv' ∧ cfg.fb = .custom ∧ 1 ≤ cfg.effBudget ∧
+          m = cfg.effBudget ∧ AllFail scr.exec cfg.effBudget ∧ prepValue cfg scr = some pv' ∧
+          (scr.exec (cfg.effBudget - 1)).res = .error e' := by
+      intro j e hj hm he' hcu
+      refine ⟨pv, pv, e, rfl, rfl, hcu, by omega, by omega, ?_, hpv, ?_⟩
+      · intro i hi
+        by_cases hij : i = j
+        · subst hij; exact ⟨e, he'⟩
+        · exact hfb i (by omega)
+      · have : cfg.effBudget - 1 = j := by omega
+        rw [this]; exact he'
+    generalize hm2 : m = m2 at he
+    cases he with
+    | noExec h => exact Or.inl rfl
+    | success => exact Or.inl rfl
+    | cancelled => exact Or.inl rfl
+    | exhausted => exact Or.inl rfl
+    | @fbOk j e x hj he' hcu hx => rw [← hm2]; exact Or.inr (fbCase j e hj hm2 he' hcu)
+    | @fbErr j e e' hj he' hcu hx => rw [← hm2]; exact Or.inr (fbCase j e hj hm2 he' hcu)
 
 end
 
